@@ -23,7 +23,7 @@ RULE = ('seeded schedules: IMU stamps uniform / jittered / with 1..3 data gaps, 
         ' Round 3: every third schedule is run a second time with the same measurement / model objects and judged again.')
 ASSUMPTIONS = ['termination is decided as bounded progress: while-header visits <= 2 (increments + epochs in span) + 4 (sys.monitoring), '
                'never by wall clock', 'two streams of the same measurement class are outside the documented interface and not generated']
-REQUIRED_OBS = ['reruns_with_same_objects', 'schedules_with_permuted_tables', 'runs_completed', 'loop_iterations', 'integrate_events', 'predict_events', 'hit_events', 'correct_events',
+REQUIRED_OBS = ['reruns_with_same_objects', 'schedules_with_permuted_tables', 'schedules_with_tiny_record', 'runs_completed', 'loop_iterations', 'integrate_events', 'predict_events', 'hit_events', 'correct_events',
                 'schedules_with_clusters', 'schedules_with_gaps', 'schedules_without_measurements', 'epochs_inside_total',
                 'time_step_below_imu_interval', 'offline_checks']
 REQUIRED_CLASSES = {'all': ['uniform', 'jitter', 'gaps']}
@@ -92,6 +92,7 @@ def run_case(case):
     obs['miss_events'] = sum(e['kind'] == 'compute_matrices' and not e['hit'] for e in ev)
     obs['correct_events'] = sum(e['kind'] == 'correct' for e in ev)
     obs['epochs_inside_total'] = d['epochs_inside']
+    obs['schedules_with_tiny_record'] = int(bool(d.get('tiny_record')))
     obs['schedules_with_permuted_tables'] = int(bool(d.get('tables_permuted')))
     obs['schedules_with_clusters'] = int(d['max_epochs_in_one_interval'] >= 2)
     obs['schedules_with_gaps'] = int(d['imu'] == 'gaps')
